@@ -80,14 +80,14 @@ CHECKS.update({
 CHECKS.update({
     "C01": dict(
         technique="static analysis: sibling agreement of frame pop sites, match-arm call-graph reachability for coercions, emit/handle pairing between compiler and VM, type walk of the property container, opcode table coverage, operand-role signatures of sibling arms, in-place copy direction test, placeholder-container coverage at context pop, receiver-protocol agreement of direction siblings, loop-scoped emission rule for switch tests, must-pass-through (loop-header waypoint) for per-iteration copies, value-origin rule for register numbers, who-may-call for unstable sorts, units check (bytes vs characters) over value origins in string natives, lastIndex sibling rule; emission dominance in the class-body compiler, text-keyed map hit behind an identity test, sibling comparison of parameter-list compilers, use of a flag component of a tuple result, use of every parsed expression",
-        text="Decides twenty-two structural necessary conditions of conformance (not the value of any operator): trampoline frame pop "
+        text="Decides some thirty structural necessary conditions of conformance (not the value of any operator): trampoline frame pop "
              "sites restore the same VM fields; operator arms convert register operands through the hook-aware coercion; "
              "break/continue/return pop block scopes on exactly one side; the own-property container is insertion ordered; "
              "every opcode is emitted, handled and (for jumps) patched, and no pending jump placeholder is dropped with its context; plain/computed sibling arms agree on operand roles; a hand-written "
              "copy inside one vector is dominated by a direction test; natives that differ only in direction read the receiver alike; the default clause of a switch is jumped to only after all case tests; "
              "for(let) copies the loop variables back on every path to the back jump; the VM addresses registers only through operands; script values are sorted stably; "
              "string natives never mix UTF-8 byte quantities with character positions; RegExp natives that run the matcher keep lastIndex. Today's deviations are genuine and listed with failing "
-             "programs; the frame-restore defect was repaired (fix: commit). Further clauses: static class elements run after the class binding and the private methods and in source order; the constant pool shares a string slot by identity; all compilers of a parameter list bind every kind of parameter and record the rest parameter; the packed-arguments flag of compile_arguments is used by every caller; a parser that builds a node keeps every expression it parses. Map/Set containers (IndexMap/IndexSet) are never edited with an order-breaking operation. Every creator of a nested function compiler passes on the class context. Every statement-list compiler creates the list's function declarations first (hoisting; repaired, fix: commit). A break / continue that leaves a finally block discards the parked completion (repaired, fix: commit).",
+             "programs; the frame-restore defect was repaired (fix: commit). Further clauses: static class elements run after the class binding and the private methods and in source order; the constant pool shares a string slot by identity; all compilers of a parameter list bind every kind of parameter and record the rest parameter; the packed-arguments flag of compile_arguments is used by every caller; a parser that builds a node keeps every expression it parses. Map/Set containers (IndexMap/IndexSet) are never edited with an order-breaking operation. Every creator of a nested function compiler passes on the class context. Every statement-list compiler creates the list's function declarations first (hoisting; repaired, fix: commit). A break / continue that leaves a finally block discards the parked completion (repaired, fix: commit). Added last: `in` walks the prototype chain (R25); no half-away rounding of script numbers and extreme loops order the zeros (R26); release loops of the compiler walk backwards, because a program's value is read from register 0 (R27); for-in / for-of push one scope per iteration and for(let) declares the next iteration's bindings before the update clause (R28, R10) - each found a reproduced defect that is repaired (fix: commits).",
         ref="4/C01"),
     "C08": dict(
         technique="static analysis: operand provenance + dominance templates on StepResult constructions, who-may-write table and operation-kind table for the ledger, must-pass-through in step(), per-variant sibling comparison of the result mappers; index-domain rule shared with C07",
